@@ -60,7 +60,7 @@ CHECKS = {
    engine='jsmn+jsonstr',
    category='proof',
    text='Unbounded part: all six functions of the unmodified contrib/src/jsmn/jsmn.c (the tokeniser behind Data::fromJSON) carry contracts - pre/postconditions, frames, loop invariants and decreases clauses for every loop - enforced per function by goto-instrument --dfcc and discharged by CBMC for every NUL-terminated input up to the stated object size and every token budget: no out-of-bounds read/write, no overflow, termination, tokens handed out lie inside the consumed input, untouched tokens keep the zero sentinel Data::fromJSON relies on. Only these count as proved. The string layer (jsonEscape/jsonUnescape) and the token walk of Data::fromJSON are mechanically extracted to C on every run and checked bounded; they are reported in separate bounded_* counters. Two slices of Data::toJSON (key statement, atom branches) are extracted as well and must emit text the real jsmn_parse_string reads back as one string token with the right content (bounded). The rest of Data::toJSON, tree building and Event<->Data are C++ containers and are not covered.',
-   note='Trusted: CBMC 6.11.0 + its C semantics (LP64, two\'s complement, signed char); object-size bounds MAXN=4096 / MAXT (8 quick, 32 thorough); jsmn_alloc_token/jsmn_fill_token inlined into their callers (their own contracts enforced separately); extraction rules + vstr shim for the bounded layers.',
+   note='Trusted: CBMC 6.11.0 + its C semantics (LP64, two\'s complement, signed char); object-size bounds MAXN=4096 / MAXT (8 quick, 16 thorough); jsmn_alloc_token/jsmn_fill_token inlined into their callers (their own contracts enforced separately); extraction rules + vstr shim for the bounded layers.',
    technique='CBMC code contracts (goto-instrument --dfcc, loop contracts from a side file) on the unmodified jsmn.c; bounded CBMC on mechanically extracted C for the string layer',
    design='3/C15'),
 }
